@@ -229,7 +229,7 @@ func RunMany(seed int64, n, events, workers int, progress func(done int)) *Summa
 					}
 					mu.Unlock()
 				}
-				if d := atomic.AddInt64(&done, 1); progress != nil && d%1000 == 0 {
+				if d := atomic.AddInt64(&done, 1); progress != nil && d%20000 == 0 {
 					progress(int(d))
 				}
 			}
